@@ -422,6 +422,15 @@ func checkPointDiscrete(fs *fails, s *uvSpec, c uvCase, d any) {
 		if okS {
 			okS = !fs.add(checkSurvival(s, c, d, k, F))
 		}
+		// Survival = 1 - CDF between lattice points as well (seeded change C11-13: a survival
+		// function through the incomplete gamma function without the floor of its argument)
+		if okS && k < hi {
+			okS = !fs.add(checkSurvival(s, c, d, k+0.5, cd.CDF(k+0.5)))
+			if okS && len(c.U) > 0 && float64(c.U[0]) > 0 && float64(c.U[0]) < 1 {
+				u := float64(c.U[0])
+				okS = !fs.add(checkSurvival(s, c, d, k+u, cd.CDF(k+u)))
+			}
+		}
 		if okP {
 			okP = !fs.add(checkProbPair(s, c, d, k, true))
 		}
